@@ -341,5 +341,8 @@ PROPS["C18"]["rules"] = PROPS["C18"]["rules"] + [rules_idioms.rule_gr_component_
 PROPS["C19"]["rules"] = PROPS["C19"]["rules"] + [rules_idioms.rule_reported_difference_counted]
 PROPS["C19"]["explanation"] += " (DIFFCOUNT) in hdiff's comparison routines every branch taken because a quantity of the two objects differs, and which prints a report, adds to the difference count (or declares the objects not comparable)."
 
+PROPS["C19"]["rules"] = PROPS["C19"]["rules"] + [rules_idioms.rule_dump_record_major]
+PROPS["C19"]["explanation"] += " (RECMAJOR) hdp reads Vdata records in FULL_INTERLACE order, the order in which its dump loop walks the buffer."
+
 NOT_APPLICABLE = {}
 
